@@ -118,7 +118,9 @@ class EventData(object):
         result = self.__event.wait(timeout)
         # pylint: disable=E0702
         # Pylint seems to miss the "is None" check below
-        if self.__exception is None:
+        if not result or self.__exception is None:
+            # Timeout, or no exception: the exception is only meaningful once
+            # the event has been set (it is stored just before)
             return result
         else:
             raise self.__exception
